@@ -25,6 +25,10 @@ type Spec struct {
 	NoPreempt   bool `json:"no_preempt,omitempty"`   // no takeover-enabled instance
 	Prompt      bool `json:"prompt,omitempty"`       // C10 promptness premise (l<=H/20, fault free)
 	Tags        []string `json:"tags,omitempty"`
+	// Amplifier: at gofail sites inside the library (see DESIGN §5) sleep a random
+	// virtual duration in [0, YieldMax] with probability YieldP.
+	YieldP   float64       `json:"yield_p,omitempty"`
+	YieldMax time.Duration `json:"yield_max,omitempty"`
 }
 
 type InstSpec struct {
